@@ -18,3 +18,5 @@ def run(prog, rep):
     r_flow.run_live(prog, rep, which=('slice',), floor=2)
     from ..rules import r_view as _rv
     _rv.run_indata(prog, rep)
+    from ..rules import r_unit as _ru
+    _ru.run_static_memo(prog, rep)
